@@ -1,7 +1,7 @@
 (** C06 — RETE engine fires a rule exactly for live facts that satisfy it.
     Statements only; proofs in Proofs/IncrementalProofs.v.  Model of the repaired engine
     (fix commits a666833: condition re-checked at firing time; 26cddab: re-propagation by dependency). *)
-From RRE Require Import Base.Sx Generated.Consts Model.ReteAgenda Model.Incremental Proofs.IncrementalProofs.
+From RRE Require Import Base.Sx Generated.Consts Model.ReteAgenda Model.Incremental Proofs.IncrementalProofs Proofs.IncrementalViewsProofs.
 Open Scope Z_scope.
 
 (** every firing of fire_all is for a rule whose condition is true of the matched fact's contents
@@ -24,6 +24,32 @@ Theorem C06_handles_fresh : forall x t d,
   snd (do_insert x t d) = next_h (e_ x) /\ next_h (e_ (fst (do_insert x t d))) = next_h (e_ x) + 1.
 Proof. exact do_insert_handle. Qed.
 Print Assumptions C06_handles_fresh.
+
+(** In EVERY reachable state (any rule set, any history of insert / update / retract / fire_all / reset, actions that
+    modify or retract included): a fact is in the full listing iff it is found by its handle iff it is listed under its
+    type, and then it is not retracted ... *)
+Theorem C06_views_agree : forall sorted rs ops f,
+  let e := e_ (exec sorted {| e_ := init rs; matched := [] |} ops) in
+  (In f (all_live e) <-> live_fact e (f_h f) = Some f)
+  /\ (In f (all_live e) <-> In f (facts_of_type e (f_type f)))
+  /\ (In f (all_live e) <-> In f (wm e) /\ f_retracted f = false).
+Proof. intros sorted rs ops f. apply views_agree. apply exec_inv. apply init_inv. Qed.
+Print Assumptions C06_views_agree.
+
+(** ... a retracted fact is in none of the three views (and no other fact answers to its handle) ... *)
+Theorem C06_retracted_in_no_view : forall sorted rs ops f,
+  let e := e_ (exec sorted {| e_ := init rs; matched := [] |} ops) in
+  In f (wm e) -> f_retracted f = true ->
+  live_fact e (f_h f) = None /\ ~ In f (all_live e) /\ ~ In f (facts_of_type e (f_type f)).
+Proof. intros sorted rs ops f. apply retracted_in_no_view. apply exec_inv. apply init_inv. Qed.
+Print Assumptions C06_retracted_in_no_view.
+
+(** ... and handles are pairwise distinct and below the next handle to be issued: never reused. *)
+Theorem C06_handles_unique : forall sorted rs ops,
+  let x := exec sorted {| e_ := init rs; matched := [] |} ops in
+  NoDup (map f_h (wm (e_ x))) /\ forall h, In h (map f_h (wm (e_ x))) -> 1 <= h < next_h (e_ x).
+Proof. intros sorted rs ops. destruct (exec_inv sorted ops _ (init_inv rs)) as (A & _ & B). split; assumption. Qed.
+Print Assumptions C06_handles_unique.
 
 (** non-vacuity: the pre-repair witness — insert amount 200, update to 5, fire_all fires nothing;
     and the monitor accepts the model's run *)
